@@ -662,6 +662,74 @@ class DiskWriterFns:
             ok = all(buf[db.FAT_OFFSET + gs[j]] == gs[j + 1] for j in range(len(gs) - 1)) and buf[db.FAT_OFFSET + gs[-1]] == 0xC0 + s_ and \
                 all(buf[q] == base[q] for q in range(N) if q not in [db.FAT_OFFSET + g for g in gs])
             env.ensure(KEY + "write_to_fat::post", ok, ("C08",), lambda: "write_to_fat:k=%d" % len(gs))
+        elif fn == "dir":
+            nl, el = cell["nl"], cell["el"]
+            name = "".join(chr(h.get("nm%d" % j, 65 + j)) for j in range(nl))
+            ext = "".join(chr(h.get("ex%d" % j, 66 + j)) for j in range(el))
+            ftype, dtype, slot, g, lb = h.get("type", 2), [0, 0xFF][h.get("dtype", 0)] if h.get("dtype", 0) in (0, 1) else h.get("dtype", 0), \
+                h.get("slot", 3), h.get("first", 5), h.get("lastbytes", 7)
+            f = F.coco_file(name, ftype, dtype, 0, 0, [], extension=ext)
+            F.method(d, "write_dir_entry", slot, f, g, lb)
+            b0 = db.DIR_OFFSET + 32 * slot
+            want = [ord(c) for c in name.upper()[:8].ljust(8)] + [ord(c) for c in ext.upper()[:3].ljust(3)] + [ftype, dtype, g, lb // 256, lb % 256] + [0] * 16
+            got = [buf[b0 + j] for j in range(32)]
+            env.ensure(KEY + "write_dir_entry::post:layout", got == want, ("C08", "C07"),
+                       lambda: "write_dir_entry:name%d.ext%d:%s" % (nl, el, "name" if got[:8] != want[:8] else "extension" if got[8:11] != want[8:11] else "fields"))
+            env.ensure(KEY + "write_dir_entry::post:frame", all(buf[q] == base[q] for q in range(N) if not b0 <= q < b0 + 32), ("C08",),
+                       lambda: "write_dir_entry:frame")
+        elif fn == "amble_write":
+            cls = cell["cls"]
+            o = F.new(DSK, cls)
+            vals = {"len": h.get("dlen", 0x0102), "load": h.get("load", 0x1234), "exec": h.get("exec", 0x5678)}
+            if cls in ("MLPreamble", "BasicPreamble"):
+                F.set(o, "data_length", F.numeric(vals["len"]))
+            if cls == "MLPreamble":
+                F.set(o, "load_addr", F.numeric(vals["load"]))
+            if cls == "Postamble":
+                F.set(o, "exec_addr", F.numeric(vals["exec"]))
+            want = self._amble_bytes(cls, vals)
+            ptr = h.get("ptr", 100)
+            key = "cocoasm/virtualfiles/disk.py::%s.write" % cls
+            img = [0xEE] * N
+            try:
+                r = F.method(o, "write", img, ptr)
+            except Raised as e:
+                env.ensure(key + "::raises:only-when-no-room", e.cls == "VirtualFileValidationError" and ptr + len(want) > N, ("C08", "C13"),
+                           lambda: "%s.write:raised:%s" % (cls, e.cls))
+                return
+            env.ensure(key + "::pre:room", ptr + len(want) <= N, ("C08",), lambda: "%s.write:no-room-accepted" % cls)
+            env.ensure(key + "::post:returns-end", r == ptr + len(want), ("C08", "C07"), lambda: "%s.write:returns=%s" % (cls, r))
+            env.ensure(key + "::post:layout", img[ptr:ptr + len(want)] == want, ("C08", "C07"), lambda: "%s.write:layout" % cls)
+            env.ensure(key + "::post:frame", all(img[q] == 0xEE for q in range(N) if not ptr <= q < ptr + len(want)), ("C08",),
+                       lambda: "%s.write:frame" % cls)
+        elif fn == "amble_read":
+            cls = cell["cls"]
+            o = F.new(DSK, cls)
+            ln = 3 if cls == "BasicPreamble" else 5
+            ptr = h.get("ptr", 100)
+            bs = [h.get("b%d" % j, [0x00, 1, 2, 3, 4][j] if cls == "MLPreamble" else [0xFF, 0, 0, 3, 4][j]) for j in range(ln)]
+            img = [0xEE] * N
+            for j, b in enumerate(bs):
+                if ptr + j < N:
+                    img[ptr + j] = b
+            before = list(img)
+            key = "cocoasm/virtualfiles/disk.py::%s.read" % cls
+            flag_ok = (bs[0] == 0x00) if cls == "MLPreamble" else ((bs[0] == 0xFF) if cls == "BasicPreamble" else (bs[0] == 0xFF and bs[1] == 0 and bs[2] == 0))
+            try:
+                r = F.method(o, "read", img, ptr)
+            except Raised as e:
+                env.ensure(key + "::raises:only-malformed-or-short", e.cls == "VirtualFileValidationError" and (ptr + ln > N or not flag_ok), ("C07", "C13"),
+                           lambda: "%s.read:raised:%s" % (cls, e.cls))
+                return
+            env.ensure(key + "::post:accepts-only-wellformed", ptr + ln <= N and flag_ok, ("C07",), lambda: "%s.read:accepted-malformed" % cls)
+            env.ensure(key + "::post:returns-end", r == ptr + ln, ("C07",), lambda: "%s.read:returns=%s" % (cls, r))
+            if cls in ("MLPreamble", "BasicPreamble"):
+                env.ensure(key + "::post:data-length", F.intval(F.get(o, "data_length")) == bs[1] * 256 + bs[2], ("C07",), lambda: "%s.read:data-length" % cls)
+            if cls == "MLPreamble":
+                env.ensure(key + "::post:load", F.intval(F.get(o, "load_addr")) == bs[3] * 256 + bs[4], ("C07",), lambda: "%s.read:load" % cls)
+            if cls == "Postamble":
+                env.ensure(key + "::post:exec", F.intval(F.get(o, "exec_addr")) == bs[3] * 256 + bs[4], ("C07",), lambda: "%s.read:exec" % cls)
+            env.ensure(key + "::post:buffer-unchanged", img == before, ("C07", "C08"), lambda: "%s.read:buffer-modified" % cls)
         else:
             env.ensure(KEY + "native-replay-not-implemented", True, ())
 
